@@ -8,7 +8,7 @@ PID="$1"; WT="$2"; TIER="${3:-quick}"
 NAME="$(basename "$(dirname "$WT")")-$PID"
 D="/tmp/vmut/$NAME"
 rm -rf "$D"; mkdir -p "$D"
-rsync -a --exclude work --exclude replays --exclude .git /verif/ "$D/verif/"
+rsync -a --exclude work --exclude replays --exclude .git --exclude harness/target /verif/ "$D/verif/" || [ $? -eq 24 ]
 cd "$D/verif"
 for f in harness/Cargo.toml batchsim/Cargo.toml; do
   [ -f "$f" ] && sed -i "s#/repo/oxidize-pdf-core#$WT/oxidize-pdf-core#g" "$f"
